@@ -37,7 +37,7 @@ def _prepare(res, prop, cfgs=None, need_model=True):
         # the source translation is part of the obligations of the properties tied to it; the other
         # properties are checked against the last good translation
         if prop in SRC_TIED:
-            broken['translator'] = str(e)
+            broken['srctranslator'] = str(e)
         else:
             res.notes.append('rs2coq failed (not part of this property): ' + str(e)[:200])
     th = None
